@@ -1,32 +1,6 @@
 // C08 — every incoming IQ request is answered exactly once; responses are never answered.
 // Complete product of type x payload x sender x id x extension set; one fresh session per injected IQ.
-#include "QXmppAccountMigrationManager.h"
-#include "QXmppArchiveManager.h"
-#include "QXmppAttentionManager.h"
-#include "QXmppBlockingManager.h"
-#include "QXmppBookmarkManager.h"
-#include "QXmppCallInviteManager.h"
-#include "QXmppCarbonManager.h"
-#include "QXmppCarbonManagerV2.h"
-#include "QXmppDiscoveryManager.h"
-#include "QXmppEntityTimeManager.h"
-#include "QXmppExternalServiceDiscoveryManager.h"
-#include "QXmppJingleMessageInitiationManager.h"
-#include "QXmppMamManager.h"
-#include "QXmppMessageReceiptManager.h"
-#include "QXmppMixManager.h"
-#include "QXmppMovedManager.h"
-#include "QXmppMucManager.h"
-#include "QXmppPubSubManager.h"
-#include "QXmppRegistrationManager.h"
-#include "QXmppRosterManager.h"
-#include "QXmppRpcManager.h"
-#include "QXmppTransferManager.h"
-#include "QXmppUploadRequestManager.h"
-#include "QXmppUserLocationManager.h"
-#include "QXmppUserTuneManager.h"
-#include "QXmppVCardManager.h"
-#include "QXmppVersionManager.h"
+#include "managers.h"
 #include "clientrig.h"
 #include "enumctx.h"
 
@@ -34,45 +8,6 @@ using namespace verif;
 
 namespace {
 
-struct ExtFactory {
-    const char *name;
-    std::function<QXmppClientExtension *(QXmppClient *)> make;
-};
-
-const std::vector<ExtFactory> &factories()
-{
-    static const std::vector<ExtFactory> f = {
-        { "roster", [](QXmppClient *c) { return new QXmppRosterManager(c); } },
-        { "vcard", [](QXmppClient *) { return new QXmppVCardManager; } },
-        { "version", [](QXmppClient *) { return new QXmppVersionManager; } },
-        { "discovery", [](QXmppClient *) { return new QXmppDiscoveryManager; } },
-        { "entitytime", [](QXmppClient *) { return new QXmppEntityTimeManager; } },
-        { "accountmigration", [](QXmppClient *) { return new QXmppAccountMigrationManager; } },
-        { "archive", [](QXmppClient *) { return new QXmppArchiveManager; } },
-        { "attention", [](QXmppClient *) { return new QXmppAttentionManager; } },
-        { "blocking", [](QXmppClient *) { return new QXmppBlockingManager; } },
-        { "bookmark", [](QXmppClient *) { return new QXmppBookmarkManager; } },
-        { "callinvite", [](QXmppClient *) { return new QXmppCallInviteManager; } },
-        { "carbons-v1", [](QXmppClient *) { return new QXmppCarbonManager; } },
-        { "carbons-v2", [](QXmppClient *) { return new QXmppCarbonManagerV2; } },
-        { "extdisco", [](QXmppClient *) { return new QXmppExternalServiceDiscoveryManager; } },
-        { "jmi", [](QXmppClient *) { return new QXmppJingleMessageInitiationManager; } },
-        { "mam", [](QXmppClient *) { return new QXmppMamManager; } },
-        { "receipts", [](QXmppClient *) { return new QXmppMessageReceiptManager; } },
-        { "pubsub", [](QXmppClient *) { return new QXmppPubSubManager; } },
-        { "mix", [](QXmppClient *) { return new QXmppMixManager; } },
-        { "moved", [](QXmppClient *) { return new QXmppMovedManager; } },
-        { "muc", [](QXmppClient *) { return new QXmppMucManager; } },
-        { "registration", [](QXmppClient *) { return new QXmppRegistrationManager; } },
-        { "rpc", [](QXmppClient *) { return new QXmppRpcManager; } },
-        { "transfer", [](QXmppClient *) { return new QXmppTransferManager; } },
-        { "uploadrequest", [](QXmppClient *) { return new QXmppUploadRequestManager; } },
-        { "userlocation", [](QXmppClient *) { return new QXmppUserLocationManager; } },
-        { "usertune", [](QXmppClient *) { return new QXmppUserTuneManager; } },
-    };
-    return f;
-}
-const int NDEFAULT = 5;
 
 struct Payload {
     const char *name;
